@@ -96,3 +96,26 @@ claim("C19",
       "Monitor on all 22 optimizers and all sub-optimizers after every step: tracked pairs are really evaluated pairs, best never decreases, greedy current never decreases. Known finding: PowellsMethod's inner 1-D climber.",
       "Partial: trackers of DownhillSimplex/Powell/Pattern/Direct/SMBO-level objects are monitored, not modelled; the link log entry = evaluated pair is established per run.",
       "Lean 4 proof (tracker invariant) + differential correspondence of tracker operations + monitor", "DESIGN.md section 5, C19")
+claim("C07",
+      "Model (GFO.Model.Rng): after construction with an integer random_state both global generators are functions of random_state + nth_process only (construct_overwrites_world, run_independent_of_ambient), random_seed = random_state + nth_process, a random_state=None run is reproduced by its random_seed (nth_process None/0). "
+      "Generated on every run from the source (translator gen_entropy, 42 call sites): every entropy site uses one of the two global generators, seeding happens only in set_random_seed, no constructor draws before super().__init__, CoreOptimizer seeds before the Initializer - closed by decide. "
+      "RNG event traces of real constructions are checked against the seeding grammar; paired real runs of all 22 optimizers under different ambient generator states give identical search_data/best; seed attribute reproduces; nth_process offset.",
+      "The generators (Mersenne Twister, numpy legacy RandomState, sklearn drawing from numpy's singleton) are trusted to be deterministic; the ast census can miss dynamically constructed entropy (none exists).",
+      "Lean 4 proof over a translator-generated census (decide) + RNG trace correspondence + paired runs", "DESIGN.md section 5, C07")
+claim("C08",
+      "Per loop: get_direction terminates with a generator; _init_vertices is bounded (100 vertex draws + 1); the rejection loops return at the first feasible candidate after exactly that many evaluations and do return once the stream holds a feasible candidate; "
+      "the diagonal grid's retries reach every pointer of Z/|S| within |S| retries (gridRetry_reaches_every_pointer, after fix 602b8e7); move_climb has no dead state (every position of the space is the image of some draw: moveClimb_no_dead_state); PSO/ES/... emit 'check else one fallback' (PSO livelock fixed d993248). "
+      "Monitor: per-step constraint-evaluation cap (10^4) and watchdog on all 22 optimizers x half-spaces, parity/band lattices, random masks with feasible fraction >= 25 %, tiny/unsorted dimensions; past livelock witnesses are replayed first.",
+      "Partial: boundedness of the randomised loops is in expectation and rests on the i.i.d./full-support behaviour of the generators; move_climb's acceptance probability under the actual distributions is not quantified.",
+      "Lean 4 proof per loop (termination / no-dead-state / coverage of Z/|S|) + capped monitor with watchdog", "DESIGN.md section 5, C08")
+claim("C09",
+      "Score-blind half as a theorem THROUGH the driver (scoreBlind_positions / scoreBlind_same_points): a backend whose position-producing methods do not read what the score-consuming methods write evaluates the same points for any two objectives; "
+      "orientation lemmas: hc_window_pick_is_max, eval2best_keeps_max, C17.select_is_argmax, C05 (progress bar keeps the maximum). "
+      "The statistical half is examined by the paired sign test (f vs -f, unimodal landscapes, 3 sign regimes, >= 75 % margin): 17 optimizers 100 % directed, random/grid search identical points; StochasticHillClimbing, SimulatedAnnealing, ParallelTempering are NOT directed - recorded as known findings.",
+      "Partial: 'seed for seed higher' for stochastic optimizers is not a theorem about any executable model - searched, not proved.",
+      "Lean 4 proof (non-interference through the driver; orientation of comparison kernels) + paired sign test", "DESIGN.md section 5, C09")
+claim("C17",
+      "GFO.C17.select_is_argmax: for every nan-free acquisition vector and every permutation sorting it ascending (whatever argsort returns) the selected candidate has maximal acquisition value; training_set_exact: after any sequence of steps zip(X_sample, Y_sample) = previous ++ finite-scored evaluations in order, lengths equal; "
+      "no_repeat_without_replacement; warm_filter_sound. Backend-level correspondence on the four model-based optimizers: X/Y after every step, selection with numpy's own permutation, warm_start_smbo filter; monitor recomputes 'acquisition of the proposal = max over the candidate set' from the vector the real code computed.",
+      "Partial: the acquisition formulas (expected improvement, density ratio, Lipschitz bound), the surrogates and argsort are oracles.",
+      "Lean 4 proof (selection + bookkeeping) + differential correspondence + monitor on the real acquisition vectors", "DESIGN.md section 5, C17")
